@@ -85,7 +85,7 @@ TStop ==      \* a run that hung or aborted is not matched further
 TCall ==
   /\ IsEvent("Call") /\ ~ign
   /\ LET o == [k |-> E.op, n |-> W(E.n), take |-> E.take, it |-> E.it] IN
-     IF E.op \notin Supported
+     IF E.op \notin Supported \/ E.pa > 0      \* low-level calls and panicking closures are not modelled here
        THEN l' = l + 1 /\ ign' = TRUE /\ UNCHANGED <<vars, run, expv, div, cnt>>   \* low-level calls: not modelled here
      ELSE IF pc[E.t] = "idle" /\ E.it \in alive /\ (E.op = "bnext" => buf[E.t][E.it] > 0 /\ buf[E.t][E.it] = W(E.n))
        THEN /\ CallBody(E.t, IF E.op = "bnext" THEN [o EXCEPT !.n = 0] ELSE o)
